@@ -14,10 +14,20 @@ import (
 // kinds, contents) is exactly what it was. Includes PUT bodies that break
 // off after any number of bytes and PUT/DELETE with conditional headers.
 func VerifH_C02_Unchanged() {
+	verifWantCopyFault = true
 	run := runStep(true, true)
+	verifWantCopyFault = false
 	defer verifCleanup()
 	req := run.req
-	if run.rec.code >= 400 {
+	if run.copyFault {
+		vrt.Assert(run.rec.code >= 400, "a COPY whose source cannot be read reports failure")
+	}
+	if run.rec.code >= 400 && run.copyFault {
+		// the copy broke off after the old destination had been removed
+		vrt.AssertKnown(run.after.equal(run.before) && len(run.extra) == 0, "COPY: a request answered 4xx/5xx leaves the tree exactly as it was",
+			"C02-copy-failure-after-destination-removed", true)
+		vrt.Reach("C02/COPY/source-unreadable")
+	} else if run.rec.code >= 400 {
 		m := req.method
 		vrt.Assert(len(run.extra) == 0, m+": a failed request leaves nothing behind outside the addressed resources")
 		putBroken := m == "PUT" && req.bodyFails >= 0 && run.before.kind[req.pi] == kFile
